@@ -300,6 +300,10 @@ func Harness_C17_revoke_padded() {
 		verif_Reach("revoke-rejected")
 	}
 	// exactly the named certificate changed (or nothing, if the request was refused)
+	for _, c := range cs {
+		got, found := k.GetCertificateByID(ctx, c17id(c))
+		verif_Assert(found && got.Certificate.State == c.state, "C06 a certificate message changes only the certificate it names")
+	}
 	c17checkListings(ctx, k, cs)
 }
 
